@@ -471,8 +471,14 @@ def run(ctx, B, collect=False):
     notes["idl_files"] = idl_files
     nocp_note("idl", nocp)
     check_families(R, ref, "idl", pub, notes["families"], None)
-    # the COMMON block must carry every constant that is assigned (otherwise routines cannot see it) - recorded only
+    # the COMMON block must carry every constant that is assigned: IDL routines reach the constants through COMMON XRAYLIB only (a name assigned at
+    # $MAIN$ but absent from the list is a $MAIN$ local, undefined inside every procedure), and a listed name that is never assigned is undefined everywhere
     comm = {c.upper() for c in top["common"]}
+    for n in sorted(pub):
+        R.cmp(ix, "common-member-missing", n, n.upper() in comm, "assigned in idl/*.pro, member of COMMON XRAYLIB: %s" % (n.upper() in comm),
+              "every constant of the interface is a COMMON XRAYLIB member", ix, "idl COMMON XRAYLIB")
+    for c in sorted(comm):
+        R.cmp(ix, "common-member-unassigned", c, c in env, "member of COMMON XRAYLIB, assigned: %s" % (c in env), "every COMMON XRAYLIB member is assigned a value", ix, "idl COMMON XRAYLIB")
     notes["idl_common_block"] = dict(names=len(comm), assigned_but_not_in_common=sorted(n for n in pub if n.upper() not in comm)[:20],
                                      in_common_but_never_assigned=sorted(c for c in comm if c not in env)[:20])
 
